@@ -27,13 +27,14 @@ Definition count_spec (c : circuit) (A : list (string * bool)) : option nat :=
   end.
 Definition cert_ok (c : circuit) : bool := match all_consistent c with CertFail => false | _ => true end.
 Definition keys_ok (c : circuit) (A : list (string * bool)) : bool := forallb (λ p, bool_decide (p.1 ∈ dom c)) A.
-(* projected model count of a clause list on a list of variables, by enumeration of all assignments *)
+(* projected model count of a clause list on a list of variables: all models by enumeration (Run/SatEnum.v; every leaf must
+   assign every variable), projected and de-duplicated *)
 Definition proj_count (F : list clause) (ind : list var) : option nat :=
   let vars := dedup (ind ++ concat (map (map snd) F)) in
-  if (length vars <=? exh)%nat then
-    let Fi := cl_ix vars <$> F in
+  let ms := models vars F in
+  if forallb (λ p : N * N, assigned vars p.1 vars) ms then
     let ix := index_of vars <$> ind in
-    Some (length (dedupb ((λ m, N.testbit m <$> ix) <$> filter (λ m, sat_ix m Fi = true) (masks (length vars)))))
+    Some (length (dedupb ((λ p : N * N, N.testbit p.2 <$> ix) <$> ms)))
   else None.
 Definition var_set_eq (l1 l2 : list var) : bool :=
   forallb (λ x, existsb (var_eqb x) l2) l1 && forallb (λ x, existsb (var_eqb x) l1) l2.
@@ -101,7 +102,7 @@ Definition holds (k : case) : bool :=
       let c := c_g C in
       if in_domain C then
         if keys_ok c A then
-          cert_ok c && match count_spec c A with Some k => bool_decide (obs = Ok k) | None => true end
+          cert_ok c && match count_spec c A with Some k => bool_decide (obs = Ok k) | None => false end
         else bool_decide (obs = Raise ValueError)
       else true
   | CProb C n obs =>
@@ -112,7 +113,7 @@ Definition holds (k : case) : bool :=
         cert_ok c &&
         match count_spec c [(n, true)], obs with
         | Some k, Ok (p, q) => bool_decide (k * q = p * 2 ^ size (startpoints c))%nat && negb (q =? 0)%nat
-        | None, _ => true
+        | None, _ => false
         | _, _ => false
         end
       else true
@@ -130,8 +131,8 @@ Definition holds (k : case) : bool :=
               (* projected model count of the exported clauses = number of extendable startpoint valuations *)
               && cert_ok c
               && match count_spec c A with
-                 | Some k => (cnt =? k)%nat && match proj_count cls ind with Some k' => (k' =? k)%nat | None => true end
-                 | None => true
+                 | Some k => (cnt =? k)%nat && match proj_count cls ind with Some k' => (k' =? k)%nat | None => false end
+                 | None => false
                  end
           | _ => false
           end
